@@ -212,6 +212,31 @@ func c12Run(c *engine.Ctx) {
 			c12Exec(c, c12Case{Pts: v})
 		}
 	})
+	// mixed-magnitude exactly collinear triples (S,P,E): P on segment SE, second segment from P
+	mcs := mixedCollinear()
+	c.Parallel(len(mcs), func(i int) {
+		t := mcs[i]
+		S, P, E := [2]float64{t[0], t[1]}, [2]float64{t[2], t[3]}, [2]float64{t[4], t[5]}
+		R := [2]float64{P[0] + 1000, P[1] - 777}
+		for variant := 0; variant < 8; variant++ {
+			a1, a2, b1, b2 := S, E, P, R
+			if variant&1 != 0 {
+				a1, a2 = a2, a1
+			}
+			if variant&2 != 0 {
+				b1, b2 = b2, b1
+			}
+			if variant&4 != 0 {
+				a1, a2, b1, b2 = b1, b2, a1, a2
+			}
+			c.Count("mixed_magnitude_cases", 1)
+			c12Exec(c, c12Case{Pts: []ref.F{ref.F(a1[0]), ref.F(a1[1]), ref.F(a2[0]), ref.F(a2[1]), ref.F(b1[0]), ref.F(b1[1]), ref.F(b2[0]), ref.F(b2[1])}, Class: true})
+		}
+		// collinear overlap S..P and P..E share only P; S..E and P..E overlap on P..E
+		for _, q := range [][4][2]float64{{S, P, P, E}, {S, E, P, E}, {S, P, E, P}} {
+			c12Exec(c, c12Case{Pts: []ref.F{ref.F(q[0][0]), ref.F(q[0][1]), ref.F(q[1][0]), ref.F(q[1][1]), ref.F(q[2][0]), ref.F(q[2][1]), ref.F(q[3][0]), ref.F(q[3][1])}, Class: true})
+		}
+	})
 	// ulp lattice: collinear base (p0,p1,p2); configurations built from it, each ordinate of the
 	// three base points perturbed by -1/0/+1 ulp
 	bases := collinearBases()
